@@ -61,6 +61,17 @@ CLAIMED["C01"] = dict(
     note=TB_COMMON + "SymPy's exp(Matrix) and simplify are contracts: entries are those of the true exponential and reported zeros are identically zero (checked end-to-end per case by the d/dh oracle at 40 digits). The get_sub_system extraction step is C02's subsystem_lossless plus C03's closure.",
     ref="DESIGN.md 4 C01")
 
+CLAIMED["C07"] = dict(
+    technique="Lean 4 theorem over all call histories of an option-store state machine (policy read off the source); fresh-interpreter differential oracle incl. PYTHONHASHSEED and input immutability",
+    text="Proof: probe_history_independent / run_pointwise - for every history of calls (any options blocks, simplify_expression arguments, failing calls, calls without dynamics) the outcome of a probe equals the outcome of the same call first in a fresh interpreter, for an arbitrary analysis function of (effective options, input, flags); unspecified_takes_default; defaults_documented (table regenerated from config.py); unknown_option_rejected; prefix_history_dependent proves the pre-repair policy violated the property. Tie: the policy (Config.reset() before the options are read) is read off the AST; the option store after every call of random histories, run in fresh interpreters, is compared with the model's; the oracle compares the canonical mathematical content of the probe's result after the history with the probe alone under several PYTHONHASHSEED values and checks that indict is unmodified.",
+    note=TB_COMMON + "That the real code reads options only through Config, input immutability and hash-seed independence are runtime facts observed by the oracle, not proved. Doc says 1E-9 for the accuracies, code 1E-6: recorded, not judged.",
+    ref="DESIGN.md 4 C07")
+CLAIMED["C09"] = dict(
+    technique="Lean 4 theorems over all well-formed entries (any identifier, order, right-hand side) and every corruption constructor at every slot, about a string-level model of the structural checks; exhaustive corruption enumeration against the real analysis",
+    text="Proof: wellformed_accepted (every entry in the documented format, of any order, passes) and one rejection theorem per corruption kind (no expression; '=' count; initial values missing / wrong number / other variable / order too high / duplicated / both spellings / single value on non-first order; reserved name; marker in name), each for every well-formed base entry and every slot; validateAll_first_bad lifts to lists of entries. Tie: for orders 0..3 every corruption kind at every entry position and slot is run through the real analysis(); exception class and the specific malformed-input message are compared with the model's outcome.",
+    note=TB_COMMON + "ASCII identifiers/white space only; parsing of the right-hand side by SymPy is outside the model ('ok' = passes the structural checks); JSON object order = Python dict order.",
+    ref="DESIGN.md 4 C09")
+
 NOT_YET = {}
 
 def main():
